@@ -253,6 +253,10 @@ def attributes(tokeniser: Any) -> list[Route]:
             break
 
         ipmask = prefix(tokeniser)
+        if ipmask.afi != template_settings.afi:
+            # one next hop, one family: the AFI was taken from the last prefix only, an IPv6 prefix before an IPv4
+            # one was answered with a Notify and an IPv4 one before an IPv6 one sent as a02::/24
+            raise ValueError(f"'{ipmask}' is not an {template_settings.afi} prefix like the last one of the list")
         # Copy template settings and update with new CIDR
         settings = copy(template_settings)
         settings.cidr = CIDR.create_cidr(ipmask.pack_ip(), ipmask.mask)
